@@ -34,6 +34,11 @@ type ViolOut struct {
 	Vec   []VecItem         `json:"vector"`
 	Model map[string]string `json:"model,omitempty"`
 }
+type WitnessOut struct {
+	Vec     []VecItem `json:"vector"`
+	Reached []string  `json:"reached"`
+}
+
 type VecItem struct {
 	Kind string `json:"kind"`
 	Val  string `json:"val"`
@@ -68,6 +73,7 @@ type EntryOut struct {
 	Samples      []string       `json:"samples"`
 	Races        []symex.Race   `json:"races,omitempty"`
 	ViolCounts   map[string]int `json:"violation_counts"`
+	Witnesses    []WitnessOut   `json:"witnesses,omitempty"`
 }
 
 func main() {
@@ -89,6 +95,7 @@ func main() {
 	flag.Var(&overrides, "override", "callee=harnessFunc override; repeatable")
 	list := flag.Bool("list", false, "list entries and exit")
 	maxSwitches := flag.Int("maxswitches", 3, "context switches per path in interleaving mode")
+	witness := flag.Int("witness", 0, "number of complete-path witnesses (solver models) to emit per entry")
 	eoMode := flag.Bool("eo", false, "extract thread automata (event-order mode) instead of path exploration")
 	eoCap := flag.Int("eocap", 12, "unrolling cap per program point in EO extraction")
 	shard := flag.String("shard", "", "i/n : explore shard i of n (n a power of two)")
@@ -138,6 +145,7 @@ func main() {
 		ex.LoopCap = *loopCap
 		ex.MaxPaths = *maxPaths
 		ex.MaxSwitches = *maxSwitches
+		ex.WitnessMax = *witness
 		ex.HarnessPkg = pkg
 		ex.SetupRedirects(pkg)
 		if *shard != "" {
@@ -219,6 +227,13 @@ func main() {
 				vo.Vec = append(vo.Vec, VecItem{Kind: r.Kind, Val: decode(r.Kind, val), Tag: r.Tag})
 			}
 			eo.Violations = append(eo.Violations, vo)
+		}
+		for _, w := range ex.Witnesses {
+			wo := WitnessOut{Reached: w.Reached}
+			for _, r := range w.ND {
+				wo.Vec = append(wo.Vec, VecItem{Kind: r.Kind, Val: decode(r.Kind, w.Model[r.T.Name])})
+			}
+			eo.Witnesses = append(eo.Witnesses, wo)
 		}
 		s.Close()
 		results = append(results, eo)
